@@ -5,6 +5,7 @@ import (
 	"fmt"
 	"math/rand"
 	"sync"
+	"sync/atomic"
 	"time"
 
 	"github.com/orbs-network/lean-helix-go/services/messagesfactory"
@@ -54,17 +55,23 @@ func RunCtx(seed int64, idx int) *Result {
 	}
 	// what parks: the leader's proposal request (mode 0), the validation of a view-0 proposal (1), the validation of the
 	// fresh block of a NEW_VIEW for the view the node already timed out into (2)
-	mode := []int{0, 0, 1, 2}[rng.Intn(4)]
+	// (3): the node joined a view above 0 through a NEW_VIEW — no trigger of its own has moved the registry — and then the
+	// delayed proposal of view 0 arrives: its validation parks under the context of the long-left (H, 0)
+	mode := []int{0, 0, 1, 2, 3}[rng.Intn(5)]
 	H := uint64(1 + rng.Intn(3)) // the height everything happens at (above 1: the node gets there by a sync of block H-1)
 	parkRequest := mode == 0 && rng.Intn(4) > 0
 	parkValidate := mode != 0 || rng.Intn(2) == 0
+	var parkArmed int32 = 1
+	if mode == 3 {
+		parkArmed = 0 // the NEW_VIEW's own block is validated without parking; the park is armed afterwards
+	}
 	nd.BU.OnRequest = func(ctx context.Context, h uint64) {
 		if parkRequest {
 			park("RequestNewBlockProposal", ctx, h)
 		}
 	}
 	nd.BU.OnValidate = func(ctx context.Context, h uint64, b *spi.Blk) {
-		if parkValidate {
+		if parkValidate && atomic.LoadInt32(&parkArmed) == 1 {
 			park("ValidateBlockProposal", ctx, h)
 		}
 	}
@@ -151,6 +158,9 @@ func RunCtx(seed int64, idx int) *Result {
 	case 2:
 		pv = uint64(me%3) + 1 // a view above 0 led by another member
 		reach = pv
+	case 3:
+		pv = uint64(me%3) + 1
+		reach = 0 // the NEW_VIEW takes the node from view 0 straight to pv
 	}
 	for v := uint64(0); v < reach; v++ {
 		fire(H, v)
@@ -213,6 +223,38 @@ func RunCtx(seed int64, idx int) *Result {
 		}
 		c = lastCap()
 		net.count("C15 validations of a NEW_VIEW's fresh block parked")
+	} else if mode == 3 {
+		leader := net.Nodes[int(pv)%len(net.Nodes)].Id
+		var votes []*ref.Vote
+		for _, other := range net.Nodes {
+			if other.Id == nd.Id {
+				continue
+			}
+			vt := &ref.Vote{Type: ref.VC, Inst: uint64(spi.InstanceId), H: H, V: pv}
+			vt.Sender = ref.Sig{Id: other.Id, Sig: net.Keys.SignCM(other.Id, H, vt.HeaderBytes())}
+			votes = append(votes, vt)
+		}
+		blk := &spi.Blk{H: H, Body: "fresh-block-of-the-new-view"}
+		emb := &ref.Ref{Type: ref.PP, Inst: uint64(spi.InstanceId), H: H, V: pv, Hash: spi.HashOf(blk)}
+		embSig := &ref.Sig{Id: leader, Sig: net.Keys.SignCM(leader, H, emb.Bytes())}
+		sg := ref.Sig{Id: leader, Sig: net.Keys.SignCM(leader, H, ref.NVHeaderBytes(ref.NV, uint64(spi.InstanceId), H, pv, votes))}
+		nd.ML.HandleConsensusMessage(nd.ctx, ref.RawNewViewMsg(ref.NV, uint64(spi.InstanceId), H, pv, votes, sg, emb, embSig, blk))
+		nd.Witness(8)
+		if _, v := nd.HV(); v != pv {
+			net.count("inconclusive: node did not adopt the NEW_VIEW")
+			nd.Cancel()
+			return net.result("ctx", idx, seed, desc)
+		}
+		atomic.StoreInt32(&parkArmed, 1)
+		old := &spi.Blk{H: H, Body: "delayed-proposal-of-view-0"}
+		nd.ML.HandleConsensusMessage(nd.ctx, factory(net.Nodes[0].Id).CreatePreprepareMessage(primitives.BlockHeight(H), 0, old, spi.HashOf(old)).ToConsensusRawMessage())
+		if !waitCap(1) {
+			net.count("inconclusive: no SPI call captured")
+			nd.Cancel()
+			return net.result("ctx", idx, seed, desc)
+		}
+		c = lastCap()
+		net.count("C15 validations of a delayed view-0 proposal parked after a NEW_VIEW")
 	}
 	net.count("C15 rt cases")
 	if c != nil {
@@ -222,10 +264,10 @@ func RunCtx(seed int64, idx int) *Result {
 		}
 		// 1. a stale trigger (older view) must not cancel the current position's context
 		steps := rng.Intn(3)
-		if pv == 0 {
-			steps = 0
+		if pv == 0 || mode == 3 {
+			steps = 0 // (mode 3: the captured context belongs to a view the node has left; older triggers may well cancel it)
 		}
-		if H > 1 && rng.Intn(2) == 0 {
+		if H > 1 && mode != 3 && rng.Intn(2) == 0 {
 			// a late trigger of the previous height (a timer goroutine that lost the race with Stop, or a commit that landed between
 			// the timer firing and the main loop reading it): an event about an older position
 			for k := 0; k < 1+rng.Intn(2); k++ {
